@@ -629,7 +629,7 @@ def model_runs(tier):
         (c(MinFields=1, MaxFields=2, MaxDepth=2, Layouts=VIEWS, Spells={"<", ">"}, InplaceFirst=True), 1),
         (c(MinFields=3, MaxFields=3, MaxDepth=1, Layouts=VIEWS), 1),
         (c(MinFields=1, MaxFields=2, MaxDepth=1, Layouts=set(LAYOUTS), Writes=RO), 1),
-        (c(MinFields=1, MaxFields=1, MaxDepth=3, Kinds={"M", "S", "N"}, Layouts={"contig", "strided"}, Writes=RO, Spells={">", "="},
+        (c(MinFields=1, MaxFields=1, MaxDepth=3, Kinds={"M", "N"}, Layouts={"contig", "strided"}, Writes=RO, Spells={">", "="},
            InplaceFirst=True), 1),
         (c(MinFields=1, MaxFields=2, MaxDepth=4, WithPlain=False, Kinds={"M", "S"}, Need={"M"}, Spells={">", "="},
            Fns={"swap", "native"}, CallerOps=set(CALLER)), 1),
